@@ -421,19 +421,12 @@ Proof. vm_compute. reflexivity. Qed.
 
 Definition is_class (n : string) (k : ctor) : bool := String.eqb (c_class k) n.
 
-Lemma callbacks_forwarded_partial : forall k, In k Gen_ctors -> c_class k <> "LinearGAM" -> ctor_reaches "callbacks" k = true.
+(* every model class whose constructor accepts `callbacks` hands it to the base constructor
+   (before the fix "LinearGAM ignored its callbacks argument" this was refuted for LinearGAM: finding S13) *)
+Lemma callbacks_forwarded : forall k, In k Gen_ctors -> smem "callbacks" (c_params k) = true /\ ctor_reaches "callbacks" k = true.
 Proof.
-  assert (H : forallb (fun k => is_class "LinearGAM" k || ctor_reaches "callbacks" k) Gen_ctors = true) by (vm_compute; reflexivity).
-  rewrite forallb_forall in H. intros k Hk Hn. specialize (H k Hk). apply orb_prop in H as [H|H]; [|exact H].
-  apply String.eqb_eq in H. contradiction.
-Qed.
-
-Lemma callbacks_forwarded_refuted : exists k, In k Gen_ctors /\ c_class k = "LinearGAM" /\
-  smem "callbacks" (c_params k) = true /\ ctor_reaches "callbacks" k = false.
-Proof.
-  destruct (find (is_class "LinearGAM") Gen_ctors) as [k|] eqn:E; [|vm_compute in E; discriminate].
-  exists k. pose proof (find_some _ _ E) as [Hin Hc]. split; [exact Hin|].
-  vm_compute in E. injection E as <-. repeat split.
+  assert (H : forallb (fun k => smem "callbacks" (c_params k) && ctor_reaches "callbacks" k) Gen_ctors = true) by (vm_compute; reflexivity).
+  rewrite forallb_forall in H. intros k Hk. specialize (H k Hk). apply andb_prop in H. exact H.
 Qed.
 
 Lemma loop_params_forwarded : forall k, In k Gen_ctors -> ctor_reaches "max_iter" k = true /\ ctor_reaches "tol" k = true.
